@@ -162,16 +162,19 @@ struct String {
     }
 
     inline bool operator==(const Char_T *str) const noexcept {
-        SizeT offset{0};
+        const SizeT length = Length();
+        SizeT       offset{0};
 
         if (str != nullptr) {
-            while ((*str != Char_T{0}) && (*str == First()[offset])) {
-                ++str;
+            // Never look at First()[offset] beyond the length: an empty string has no storage at all.
+            while ((offset < length) && (str[offset] != Char_T{0}) && (str[offset] == First()[offset])) {
                 ++offset;
             }
+
+            return ((offset == length) && (str[offset] == Char_T{0}));
         }
 
-        return ((*str == Char_T{0}) && (Length() == offset));
+        return (length == 0);
     }
 
     inline bool operator!=(const String &string) const noexcept {
